@@ -135,3 +135,9 @@ package xbus
 //@ func (*socket).RemovePipe
 //@   before call:delete#1 assert arg0 == s.pipes && held(s.Mutex)
 //@   before call:close#1 assert arg0 == p.closeQ
+
+// ---- round 10 (C08): every pipe but the one the message came from is offered the message: a
+// non-blocking send on its queue is reached, whatever the queue's depth ----
+//@ func (*socket).SendMsg
+//@   loop 1 ensures p.p.ID() != ite(len(old(m.Header)) == 4, be32(old(m.Header)), 0) ==> called_since("loop1:head", "Clone") && sel("select#1") != -2
+//@   before select#1 assert selsends(p.sendQ) && held(s.Mutex)
